@@ -38,6 +38,16 @@ fn main() {
             let mut kinds = std::collections::BTreeSet::new();
             let mut fast = 0usize;
             let edge_root = rng.chance(1, 40);
+            let corpus = corpus();
+            if i < corpus.len() {
+                for op in &corpus[i] {
+                    kinds.insert(op.kind());
+                    outcome = d.apply(op.clone());
+                    if outcome != Outcome::Ok {
+                        break;
+                    }
+                }
+            } else {
             'outer: for _t in 0..n_tx {
                 let n_ops = 1 + rng.usize(7);
                 for _k in 0..n_ops {
@@ -124,10 +134,20 @@ fn main() {
                         let ps = if rng.chance(1, 2) {
                             None
                         } else {
-                            let dsc = descendants(&parents, old);
+                            // not onto a descendant of any commit of the same change (that would
+                            // ask for a commit to be rebased onto itself)
+                            let ch = d.commits[old].change_id().clone();
+                            let mut dsc = vec![false; n];
+                            for x in 0..n {
+                                if d.commits[x].change_id() == &ch {
+                                    for (j, b) in descendants(&parents, x).iter().enumerate() {
+                                        dsc[j] |= *b;
+                                    }
+                                }
+                            }
                             let cands: Vec<usize> =
                                 (0..n).filter(|x| rng_ok(&dsc, *x)).collect();
-                            if cands.is_empty() || rng.chance(1, 12) {
+                            if cands.is_empty() || rng.chance(1, 40) {
                                 Some(vec![pick(&mut rng, true)])
                             } else {
                                 let mut ps = vec![*rng.pick(&cands)];
@@ -144,10 +164,21 @@ fn main() {
                     } else if choice < 97 {
                         Op::Abandon(pick(&mut rng, false))
                     } else {
+                        // divergent rewrite: two rewrites of the same commit, then the record
                         let old = pick(&mut rng, false);
-                        let a = pick(&mut rng, false);
-                        let b = pick(&mut rng, false);
-                        Op::Divergent(old, if a == b { vec![a] } else { vec![a, b] })
+                        desc_counter += 2;
+                        let o1 = d.apply(Op::Rewrite { old, ps: None, desc: desc_counter - 1 });
+                        let o2 = if o1 == Outcome::Ok {
+                            d.apply(Op::Rewrite { old, ps: None, desc: desc_counter })
+                        } else {
+                            o1
+                        };
+                        if o2 != Outcome::Ok {
+                            outcome = o2;
+                            break 'outer;
+                        }
+                        let k = d.n();
+                        Op::Divergent(old, vec![k - 2, k - 1])
                     };
                     if let Op::New { ps, .. } = &op {
                         if ps.iter().all(|p| view.heads.contains(p)) {
@@ -183,6 +214,7 @@ fn main() {
                     break 'outer;
                 }
             }
+            }
             if outcome == Outcome::Panic {
                 ctx.panicked();
             }
@@ -216,6 +248,30 @@ fn main() {
             ctx.emit(i, term, nontrivial, &shape);
         }
     });
+}
+
+/// Hand-written edge cases, always run first.
+fn corpus() -> Vec<Vec<Op>> {
+    let new = |ps: &[usize], desc: u64| Op::New { ps: ps.to_vec(), desc, empty: false };
+    vec![
+        // add_head(root) takes the replace_heads fast path (the root has no parents)
+        vec![new(&[0], 1), Op::Commit, Op::AddHeads(vec![0]), Op::Commit],
+        // the same in the transaction that created the first commit
+        vec![new(&[0], 1), Op::AddHeads(vec![0]), Op::Commit],
+        // add_heads slow path with redundant ancestors
+        vec![new(&[0], 1), new(&[1], 2), new(&[0], 3), Op::Commit, Op::AddHeads(vec![1, 2, 0]), Op::Commit],
+        // bookmark on a hidden commit makes it visible again
+        vec![
+            new(&[0], 1),
+            new(&[1], 2),
+            Op::Commit,
+            Op::Abandon(2),
+            Op::Rebase(Opts { imm: vec![], empty: 0, delete_abandoned: false, simplify: false, oracle: vec![] }),
+            Op::Commit,
+            Op::SetBookmark { name: 1, target: vec![Some(2)] },
+            Op::Commit,
+        ],
+    ]
 }
 
 fn rng_ok(desc: &[bool], x: usize) -> bool {
